@@ -3,7 +3,7 @@
 //! and the fold halves of C05 (no panic), C12 (Ok values well-formed), C14 (category preserved).
 use crate::coqw::*;
 use crate::enumgen::*;
-use crate::enumprops::{printable, real_parse, wf_out, PR};
+use crate::enumprops::{printable, real_lexfold, real_parse, wf_out, PR};
 use crate::prng::Rng;
 use crate::ser::*;
 use crate::util::*;
@@ -587,6 +587,19 @@ pub fn run_c03(o: &Opts) -> Report {
         }
     }
     parsed_stream(&mut cx, &mut rng, o.n, o.thorough, "parsed", true);
+    // witness of the known class K3 for this property (Han): a name ending in the first character of a two-character
+    // copula, WITH a space before the copula: the enum parser keeps the name, the lexical parser strips the space first
+    {
+        let fm = &formats()[2];
+        let s = "「a具 有值」";
+        let direct = real_parse(fm.e, s);
+        let folded = real_lexfold(fm, s);
+        let differ = canon_pr(&direct) != canon_pr(&folded);
+        cx.rep.hist.add(format!("witness:K3:{}", if differ { "pipelines disagree" } else { "agree" }));
+        if differ {
+            cx.fail("witness", "known-class witness: direct enum parse and lexical parse + fold differ", format!("[han] {:?}", s), canon_pr(&direct), canon_pr(&folded), Some("K3"));
+        }
+    }
     // probes OUTSIDE the property's domain (texts the enum formatter cannot emit): where the two pipelines
     // are allowed to differ.  Recorded in the histogram (and compared with the model), never a failure.
     for (fi, s) in [(0usize, "(--, A, B)"), (0, "(-, A, B, C)"), (0, "(~, A)"), (0, "(--, A)"), (0, "(/, R, _, _)"), (0, "(/, _)"), (0, "{A, A}"), (0, "<A --> B>. %1.0;0.5;0.3%"), (0, "+00000000000000000000007"), (0, "+18446744073709551616"), (0, "A. :!+5:"), (0, "A. %1e0%"), (0, "A. %-0%"), (0, "$-0$ A.")] {
